@@ -30,6 +30,8 @@ void sleeps_advance_clock(bool yes);  // default true
 // ---- logical time stamps for call/return histories ----------------------------
 // A visible RMW on a global counter: the real-time order of stamps is part of
 // the state signature, so HB-caching stays sound for linearizability oracles.
+// Also the way to mark progress in a harness loop whose iterations perform only identical atomic reads (e.g. looking up many
+// keys of one hash group): without a visible write such a loop is indistinguishable from a polling loop and would be parked.
 uint64_t step();
 
 // ---- info --------------------------------------------------------------------
